@@ -170,6 +170,7 @@ func runC04(c *Ctx) {
 	// always wipes what is in memory (C05-R3's rule)
 	c.Borrow(runC05, "C05-R3", "C04-R5", func(k string) bool { return k == "ConvertToWatchingOnly-reaches-lock" })
 	checkScriptSecrecyClassIsCallers(c, "C04-R1")
+	checkKeySlotGetsItsOwnClass(c, "C04-R1")
 
 	// ---------- R2 ----------
 	nPut := 0
